@@ -90,6 +90,31 @@ def history_scenarios(flavour, length):
                                                         'meta': {'seq': [o[:3] for o in hist], 'members': [], 'n': n}}
 
 
+def searched_scenarios(flavour, n, max_edges):
+    """every kind of search and ordering runs from two roots and its result is dropped at once; then the handles are
+    dropped: whatever a traversal leaves behind on the nodes must not keep any of them alive"""
+    for seq in canon_sequences(n, max_edges):
+        nodes = [[i, 100 + i] for i in range(n)]
+        pre = [['connect', u, v, {'s': f'e{j}'}] for j, (u, v) in enumerate(seq)]
+        runs = []
+        for root, tgt in ((0, 1), (1, 0)):
+            for alg in ('bfs', 'dfs', 'pfs'):
+                for mode, t in (('path', tgt), ('search', tgt), ('cycle', None)):
+                    sp = {'alg': alg, 'root': root, 'target': t, 'mode': mode, 'method': 'none', 'transpose': False}
+                    if alg == 'pfs':
+                        sp['prio'] = 'min'
+                    runs.append(['search', sp])
+            for kind in ('pre', 'post'):
+                runs.append(['order', {'kind': kind, 'root': root, 'mode': 'edges', 'method': 'none', 'transpose': False}])
+        idx = list(range(n))
+        for order in [tuple(idx[r:] + idx[:r]) for r in range(n)] + [tuple(reversed(idx))]:
+            steps = pre + runs + [['drops']]
+            for i in order:
+                steps += [['drop', i], ['drops']]
+            yield (flavour, 'after-searches', 'no-result'), {'flavour': flavour, 'nodes': nodes, 'steps': steps,
+                                                           'meta': {'seq': seq, 'members': [], 'n': n}}
+
+
 def evaluate(prop, scen, obs, ctx):
     ab = abnormal(obs)
     if ab:
@@ -152,9 +177,11 @@ def run(prop, tier, seed):
             items += list(scenarios(fl, 3, 2, False, queries=True))
             items += list(history_scenarios(fl, 3))
             items += list(scenarios(fl, 3, 2, False, removes=True))
+            items += list(searched_scenarios(fl, 3, 2))
         else:
             items += list(history_scenarios(fl, 4))
             items += list(scenarios(fl, 3, 3, False, removes=True))
+            items += list(searched_scenarios(fl, 3, 3))
             items += list(scenarios(fl, 3, 4, False))
             items += list(scenarios(fl, 3, 3, False, queries=True))
             items += list(scenarios(fl, 3, 2, True))
@@ -164,6 +191,7 @@ def run(prop, tier, seed):
         bounds={'nodes': 3, 'max_edges': 3 if tier == 'quick' else 4,
                 'queries_before_drops': 'variants in which every degree / predicate / lookup query runs on every node before the drops (<=2 edges, thorough 3)', 'node_values': 'distinct, and all equal (value ties in priority-first frontiers) in the query variants', 'handles': '3 node handles, optional container (members {0,1} or all), optional kept result of bfs path / dfs search / dfs cycle / preorder nodes / postorder edges / pfs min path / pfs max search',
                 'histories_with_removals': 'every sequence of <=%d connect / try_connect / disconnect / isolate calls on two bare nodes, both drop orders' % (3 if tier == 'quick' else 4),
+                'after_searches': 'bfs/dfs/pfs path, search and cycle plus pre/postorder run from two roots with their results dropped, then the handles are dropped (<=%d edges)' % (2 if tier == 'quick' else 3),
                 'container_remove': 'a member is removed from the container (Graph::remove, result dropped) before the drops (<=%d edges)' % (2 if tier == 'quick' else 3),
                 'drop_orders': 'rotations + reverse' if tier == 'quick' else 'rotations + reverse (<=4 edges), all permutations (<=2 edges)',
                 'outside': 'more handles per node; results of pfs and of filtered searches; drop during a running traversal'},
